@@ -28,7 +28,11 @@ RULE = ("parameter dictionaries of 1-7 entries over the supported value "
         "by-value canonical form, then saved and loaded again (idempotence).  "
         "Signature = (object kind, route, value kinds present, unpacked "
         "count, result types); non-trivial = at least one non-python-scalar "
-        "value or one updated result.")
+        "value or one updated result.  "
+        "Result histories mix updates with merges of multi-update results; the "
+        "same object is saved again after further operations; results of single "
+        "unpacked variations are saved under templates naming the unpacked "
+        "parameter. ")
 ASSUMPTIONS = ["lists do not contain arrays (the classes' own == cannot "
                "compare those, independent of serialisation)",
                "by-value comparison: a float32 may come back as a Python float "
